@@ -4,4 +4,5 @@ CONSTANTS
   Procs = {1,2,3}
   Fixed = FALSE
   EnableFirst = TRUE
+  Mon = TRUE
 INVARIANTS LinStrict
